@@ -451,6 +451,70 @@ fn block_scalars(ctx: &mut Ctx, quick: bool, rng: &mut crate::ctx::Rng) {
     }
 }
 
+
+/// K + S: long one-line strings are written as folded blocks (`>-`) wrapped at `folded_wrap_chars`: the body lines
+/// == emit_folded_line, the parser's reading of them == read_folded_paragraph, and the text reads back.
+fn folded_paragraphs(ctx: &mut Ctx, quick: bool, rng: &mut crate::ctx::Rng) {
+    use std::collections::BTreeMap;
+    let words = ["a", "bb", "word", "longerword", "x1", "é", "日本", "unbreakablewordwithoutanyspaces", "t\tb", "q-r", "e.g.", "100%", "c:d"];
+    let n = if quick { 400 } else { 8000 };
+    for _ in 0..n {
+        let k = 2 + rng.below(14);
+        let mut v = String::new();
+        for i in 0..k {
+            if i > 0 {
+                v.push_str(&" ".repeat(if rng.chance(1, 6) { 1 + rng.below(3) } else { 1 }));
+            }
+            let word: &str = *rng.pick(&words);
+            v.push_str(word);
+        }
+        let w = *rng.pick(&[10usize, 12, 20, 40, 80]);
+        let step = *rng.pick(&[2usize, 2, 4]);
+        #[allow(deprecated)]
+        let mut so = serde_saphyr::SerializerOptions::default();
+        #[allow(deprecated)]
+        {
+            so.folded_wrap_chars = w;
+            so.indent_step = step;
+        }
+        let Ok(text) = serde_saphyr::to_string_with_options(&BTreeMap::from([("k", v.clone())]), so) else { continue };
+        let Some(body) = text.strip_prefix("k: >-\n") else {
+            ctx.count("folded:not_auto_folded");
+            continue;
+        };
+        let mut lines: Vec<String> = body.split('\n').map(|l| l.to_string()).collect();
+        if lines.last().map(|l| l.is_empty()).unwrap_or(false) {
+            lines.pop();
+        }
+        ctx.count(&format!("folded:wrap_{w}_lines_{}", lines.len().min(4)));
+        let replay = json!({"kind": "folded", "s": v, "wrap": w, "indent_step": step, "text": text});
+        ctx.case(format!("CFoldEmit {} {} {} {}", coq::n(step as u128), coq::n(w as u128), coq::s(&v), lines_term(&lines)), lines.len() > 1, replay.clone());
+        // the parser's reading (never at the very end of the input)
+        let doc = format!("{text}j: 1\n");
+        let mut got = None;
+        let mut scalars = 0;
+        let mut bad = false;
+        for ev in saphyr_parser::Parser::new_from_str(&doc) {
+            match ev {
+                Ok((saphyr_parser::Event::Scalar(val, style, ..), _)) => {
+                    scalars += 1;
+                    if matches!(style, saphyr_parser::ScalarStyle::Folded) {
+                        got = Some(val.to_string());
+                    }
+                }
+                Ok(_) => {}
+                Err(_) => bad = true,
+            }
+        }
+        let got = if bad || scalars != 4 { None } else { got };
+        ctx.case(format!("CFoldRead None {} {}", lines_term(&lines), coq::opt(&got, |g| coq::s(g))), true, replay.clone());
+        ctx.direct_evaluations += 1;
+        if got.as_deref() != Some(v.as_str()) {
+            ctx.fail("folded-round-trip", format!("{v:?} wrapped at {w} is written {text:?} and read back as {got:?}"), replay);
+        }
+    }
+}
+
 pub fn run(ctx: &mut Ctx) {
     util::quiet_panics();
     ctx.set_case_format("From SS Require Import Corr.SerScalar.\nLocal Open Scope N_scope.", "case", "check_case");
@@ -477,6 +541,7 @@ pub fn run(ctx: &mut Ctx) {
     {
         let mut r2 = rng.fork();
         block_scalars(ctx, quick, &mut r2);
+        folded_paragraphs(ctx, quick, &mut r2);
     }
 
     // ---- the strings
